@@ -69,7 +69,7 @@ package redis
 //@   prop C18 C11 C02
 //@   produces sreq
 //@   requires r != nil && r.raw != nil && r.raw.body != nil && len(r.raw.body.Array) >= 2
-//@   ensures @idx nodeIdx == old(r.nodeIdx) && sreq != nil
+//@   ensures @idx nodeIdx == old(r.nodeIdx) && sreq != nil && sreq.body != nil && len(sreq.body.Array) >= 2
 
 //@ func (*scanRequest).Convert$1
 //@   prop C18 C11
@@ -498,6 +498,9 @@ package redis
 //@   prop C11 C13 C02
 //@   consumes r if result == "Stop"
 //@   requires c != nil && r != nil && r.body != nil && len(r.body.Array) >= 1
+//@   modifies all
+//@   ensures @argument-array-keeps-its-length r.body == old(r.body) && len(r.body.Array) == old(len(r.body.Array))
+//@   loop 0 invariant r.body == old(r.body) && len(r.body.Array) == old(len(r.body.Array))
 //@   requires @filters-non-nil forall k int :: 0 <= k && k < len(c.filters) ==> c.filters[k] != nil
 //@   loop 0 assume c.filters == old(c.filters) && forall k int :: 0 <= k && k < len(c.filters) ==> c.filters[k] != nil
 
@@ -514,6 +517,8 @@ package redis
 //@ func (*compressFilter).Do
 //@   prop C11 C13 C02
 //@   consumes req if result == "Stop"
+//@   modifies all
+//@   ensures @argument-array-keeps-its-length len(req.body.Array) == old(len(req.body.Array))
 //@   requires f != nil && req != nil && req.body != nil
 //@   requires @values-disjoint forall j int, k int :: 0 <= j && j < k && k < len(req.body.Array) ==> disjoint(req.body.Array[j].Text, req.body.Array[k].Text)
 
@@ -677,6 +682,9 @@ package redis
 //@   prop C02 C04 C20
 //@   consumes req
 //@   requires req != nil && req.body != nil && len(req.body.Array) >= 1
+//@   modifies all
+//@   ensures @argument-arrays-keep-their-length forall x *simpleRequest :: x != nil && x.body != nil ==> len(x.body.Array) == old(len(x.body.Array))
+//@   assume @ret forall x *simpleRequest :: x != nil && x.body != nil ==> len(x.body.Array) == old(len(x.body.Array))
 
 //@ func (*upstream).getClient
 //@   prop C07 C02
@@ -712,3 +720,13 @@ package redis
 //@ func handleEval$1
 //@   prop C02
 //@   consumes deref(req)
+
+//@ func (*encoder).Encode
+//@   prop C10 C01 C02
+//@   requires e != nil && v != nil && e.bw != nil
+//@   modifies e.err
+
+//@ func (*encoder).Flush
+//@   prop C10 C01 C02
+//@   requires e != nil && e.bw != nil
+//@   modifies e.err
